@@ -71,11 +71,12 @@
       the expected outcome with its own key lookup / HMAC / time window and compares field by field,
       and compares with the response to the request stripped of its TSIG RR) is not done; (g) proves,
       in decoded form, the facts that audit checks for responses without answer data;
-  (2) for authenticated requests that a loaded zone *answers*, (f) gives the octets (`pre ++ TSIG
-      record`, MAC over `pre`) and `C10_tsig_record_last_owner_decodes` the decoded owner at the
-      record's position; that this record is the *last element of the decoded additional section*
-      (`specDecodeMsg`) needs the content layout of the answering phase's final writer (the same
-      missing induction as in C09);
+  (2) (closed) for authenticated requests that a loaded zone *answers*:
+      `C10_decoded_authenticated_answer` — in every decoding the TSIG record is the last element of
+      the additional section, with the key name as owner (up to case), `tsigRdata` of the prepared RR
+      as RDATA and the MAC of (f); it rests on `ServerContent.signed_answer_final` (the final writer of
+      the answering phase is `Good`: the induction over `handle_non_axfr_query` that ties the ghost
+      log to the writer's content layout);
   (3) when the reply's TSIG does not fit (UDP): the response is TC / NOERROR without TSIG — (e), state
       level only.
 -/
@@ -85,6 +86,7 @@ import QV.Spec.ServerTsig
 import QV.Proofs.ServerSigned
 import QV.Proofs.ServerSignedDecode
 import QV.Proofs.ServerSignedOwner
+import QV.Proofs.ServerAnswerDecode
 
 namespace QV.C10
 open QV QV.Server QV.Writer QV.Tsig QV.ServerTsig
@@ -577,6 +579,50 @@ theorem C10_decoded_error (cfg : Cfg) (tr : Transport) (now bufLen : Nat) (req :
   refine ⟨List.length_eq_zero_iff.mp c3, List.length_eq_zero_iff.mp c4, rest, o, g1, ?_, g2, g3, g4, g5, ?_⟩
   · rw [g8, hq3, he]; cases (Spec.Server.specScanWith (catKind cfg) cfg.payload req).edns <;> rfl
   · rw [g6, hmac]
+
+open QV.ServerScan in
+/-- **an authenticated request that a loaded zone answers, decoded**: in every independent decoding
+    of the response the TSIG record is the *last element of the additional section* — TYPE 250, CLASS
+    ANY, TTL 0, owner = the key name up to ASCII case, RDATA octet for octet `tsigRdata` of the
+    prepared RR `prepOf kn t now 0` (algorithm, time signed = now, fudge 300, MAC, original ID, error
+    0, no other data) — and the MAC is `macFn` of exactly the octets `pre` before the record
+    (`b = pre ++ TSIG record`); before it come the address records of the answering phase and the OPT
+    (iff the scan reached one).  The final writer is `Good` with the question and the records of the
+    successful calls of the answering phase as its body (`ServerContent.signed_answer_final`: the
+    induction over `handle_non_axfr_query` that ties the ghost log to the writer's content layout). -/
+theorem C10_decoded_authenticated_answer (cfg : Cfg) (hcfg : ServerSafety.CfgWF cfg) (tr : Transport)
+    (now bufLen : Nat) (req : Bytes)
+    (hbuf : minBuf tr cfg.payload ≤ bufLen) (hpay : 512 ≤ cfg.payload) (hp16 : cfg.payload ≤ 65535)
+    (hreq : req.size ≤ Rdata.USIZE_MAX)
+    (hr : (Spec.Server.specScanWith (catKind cfg) cfg.payload req).respond = true)
+    (hv : (Spec.Server.specScanWith (catKind cfg) cfg.payload req).verdict = .tsigReached) :
+    ∃ (t : ReadTsigRr) (mw : Bytes) (r' : Reader.Reader), r'.octets = req ∧ r'.cursor ≤ req.size ∧
+      ∀ r'' S, tsigAfter cfg now t mw r' (preTsigState cfg tr bufLen req) = (.ok (some r''), S) →
+        endVerdict (catKind cfg) req.size (Spec.Server.specScanWith (catKind cfg) cfg.payload req).question
+          r'.cursor ((req.getD 2 0).toNat / 8 % 16) = .answer →
+      ∀ b, handleMessage cfg tr now bufLen req = .ok (some b) →
+        ∃ nowT alg key kn, TimeSigned.tryFromUnix now = some nowT ∧
+          Algorithm.fromName t.algorithm = some alg ∧ findKey cfg.keys t.keyName alg = some key ∧
+          WName.parse t.keyName = some (kn, []) ∧ verifyRequest realHmac t mw.toList alg key.secret nowT = .ok () ∧
+          ∃ pre oe, b.toList = pre ++ tsigRecordOctets oe (respTsig alg key kn t nowT)
+              (some (macFn (respTsig alg key kn t nowT) pre)) ∧
+            ∀ d, Spec.specDecodeMsg b = some d →
+              ∃ rest o, d.ar = rest ++ [o] ∧ o.ty = 250 ∧ o.cls = 255 ∧ o.rawTtl = 0 ∧
+                o.owner.map lowerU8 = kn.wire.map lowerU8 ∧
+                o.rdata = tsigRdata (prepOf kn t nowT 0) (algName (toWriterAlg alg))
+                  (macFn (respTsig alg key kn t nowT) pre) := by
+  obtain ⟨t, mw, r', h1, h2, h3⟩ := ServerContent.signed_answer_final cfg hcfg tr now bufLen req hbuf hpay hp16 hreq hr hv
+  refine ⟨t, mw, r', h1, h2, fun r'' S hT hev b hb => ?_⟩
+  obtain ⟨nowT, alg, key, kn, F, mac, bd, e1, e2, e3, e4, e5, hf, hG, _, _, hts, _⟩ := h3 r'' S hT hev b hb
+  refine ⟨nowT, alg, key, kn, e1, e2, e3, e4, e5, ?_⟩
+  obtain ⟨_, hmac, oe, sT, _, _, _, _, hbl⟩ := finish_octets_tsig macFn F hG.1.inv.hdr _ hts b mac hf
+  have hmac' : mac = some (macFn (respTsig alg key kn t nowT) (finishPrefix F ++ optEnc F.edns)) := by
+    rw [hmac]; rfl
+  rw [hmac'] at hbl
+  refine ⟨finishPrefix F ++ optEnc F.edns, oe, hbl, fun d hd => ?_⟩
+  obtain ⟨rest, o, g1, g2, g3, g4, g5, g6, _, _⟩ := tsig_of_good macFn F _ hG _ hts b mac hf d hd
+  refine ⟨rest, o, g1, g2, g3, g4, g5, ?_⟩
+  rw [g6, hmac']; rfl
 
 open QV.ServerScan in
 /-- **every signed response — answers from loaded zones included.**  With `w1` the writer that
